@@ -179,6 +179,24 @@ pub fn case<const COLS: usize, const PIS: usize>(seed: u64, case: u64, quick: bo
         let out = attempt(&stark, &config, &t2, &pis);
         judge(&mut acc, &class, violating, &out, &ctx, json!({"row": row, "column": col, "first_violation": bad.first()}));
     }
+    // a prover that never commits to a quotient and chooses it after zeta (needs a quotient to exist)
+    if stark.spec.degree >= 1 {
+        let mut t2 = trace.clone();
+        for c in t2.iter_mut() {
+            for x in c.iter_mut() {
+                if rng.gen_bool(0.3) {
+                    *x = other_value(&mut rng, *x);
+                }
+            }
+        }
+        let violating = !spec.check_trace(&t2, &pis).is_empty();
+        if violating {
+            set_knobs(StarkProverKnobs { skip_constraint_check: true, forge_quotient_after_zeta: true, ..Default::default() });
+            let out = attempt(&stark, &config, &t2, &pis);
+            set_knobs(StarkProverKnobs { skip_constraint_check: true, lenient_truncation: true, ..Default::default() });
+            judge(&mut acc, "prover_never_commits_to_a_quotient", true, &out, &ctx, json!({}));
+        }
+    }
     // wrong public inputs, consistently given to the prover
     for i in 0..PIS {
         let mut p2 = pis.clone();
